@@ -79,6 +79,12 @@ def do_case(ctx, inp):
     want2 = [[i for i, v in zip(ids, row) if v == 1] for row in vec2]
     if [[v.id for v in row] for row in tl2] != want2:
         ctx.fail("to_list-of-a-matrix-wrong", {"got": [[repr(v.id) for v in row] for row in tl2]})
+    vec3 = [vec2, vec2[::-1]]
+    tl3 = pnd.boolean_ndarray(np.array(vec3, dtype=np.int64), variables=vs).to_list()
+    want3 = [[[i for i, v in zip(ids, row) if v == 1] for row in m2] for m2 in vec3]
+    got3 = [[[v.id for v in row] for row in m2] for m2 in tl3] if all(isinstance(m2, list) and all(isinstance(r_, list) for r_ in m2) for m2 in tl3) else repr(tl3)[:200]
+    if got3 != want3:
+        ctx.fail("to_list-of-a-stack-of-matrices-wrong", {"got": got3 if isinstance(got3, str) else [[[repr(x) for x in r_] for r_ in m2] for m2 in got3]})
     if tl != [i for i, v in zip(ids, vec) if v == 1]:
         ctx.fail("to_list-wrong", {"got": [repr(i) for i in tl]})
     wb = [j for j, b_ in enumerate(bnds) if b_ == [0, 1]]
